@@ -1,0 +1,18 @@
+//go:build verif
+
+package crdt
+
+// Contracts for property C39, observed-remove set: what a delta must carry so
+// that merging it agrees with merging the full state.
+
+//@ property C39
+
+// every dot removed since the last ResetDelta is covered by the delta's clock -
+// also when the element was re-added in the same window (the removed dots may
+// have been minted by other nodes) - so a peer drops them on merge
+//@ func (*ORSet).Delta(s)
+//@   closed-heap on
+//@   requires s.delta != nil && s.delta.added != nil && s.delta.removed != nil && s.clock != nil
+//@   loop 3 invariant visited-removed-dots-covered: d != nil && d.clock != nil && d.clock != s.clock && forall e any, j int :: visited(e) && has(s.delta.removed, e) && 0 <= j && j < len(s.delta.removed[e]) ==> d.clock[s.delta.removed[e][j].nodeID] >= s.delta.removed[e][j].counter
+//@   loop 4 invariant covered-so-far: -1 <= rangeindex && rangeindex < len(dots) && d != nil && d.clock != nil && d.clock != s.clock && forall e any, j int :: visited(e) && has(s.delta.removed, e) && 0 <= j && j < len(s.delta.removed[e]) && (s.delta.removed[e] != dots || j <= rangeindex) ==> d.clock[s.delta.removed[e][j].nodeID] >= s.delta.removed[e][j].counter
+//@   ensures removed-dots-are-covered: result != nil ==> forall e any, j int :: has(s.delta.removed, e) && 0 <= j && j < len(s.delta.removed[e]) ==> result.(*ORSet).clock[s.delta.removed[e][j].nodeID] >= s.delta.removed[e][j].counter
